@@ -2552,24 +2552,41 @@ func genGlobalVarDecl(nodes []*node, sc *scope) (*node, error) {
 }
 
 func getVarDependencies(nod *node, sc *scope) (deps []*node) {
-	nod.Walk(func(n *node) bool {
-		if n.kind != identExpr {
-			return true
-		}
-		// Process ident nodes, and avoid false dependencies.
-		if n.anc.kind == selectorExpr && childPos(n) == 1 {
+	seen := map[*node]bool{}
+	var walk func(root *node, inFunc bool)
+	walk = func(root *node, inFunc bool) {
+		root.Walk(func(n *node) bool {
+			if n.kind != identExpr {
+				return true
+			}
+			// Process ident nodes, and avoid false dependencies.
+			if n.anc.kind == selectorExpr && childPos(n) == 1 {
+				return false
+			}
+			sym := n.sym
+			if !inFunc || sym == nil {
+				// In a function body, identifiers have been resolved by cfg, taking local
+				// declarations into account. Otherwise, lookup in the package scope.
+				if inFunc {
+					return false
+				}
+				var ok bool
+				if sym, _, ok = sc.lookup(n.ident); !ok {
+					return false
+				}
+			}
+			switch {
+			case sym.kind == funcSym && sym.node != nil && sym.node.kind == funcDecl && !seen[sym.node]:
+				// Dependencies also pass through the bodies of the referenced functions.
+				seen[sym.node] = true
+				walk(sym.node.child[3], true)
+			case sym.kind == varSym && sym.global && sym.node != nil && sym.node != nod:
+				deps = append(deps, sym.node)
+			}
 			return false
-		}
-		sym, _, ok := sc.lookup(n.ident)
-		if !ok {
-			return false
-		}
-		if sym.kind != varSym || !sym.global || sym.node == nod {
-			return false
-		}
-		deps = append(deps, sym.node)
-		return false
-	}, nil)
+		}, nil)
+	}
+	walk(nod, false)
 	return deps
 }
 
